@@ -64,6 +64,9 @@ served as the regression test):
 | C13-r61 | C13 | `SchnorrPublicKey.Point()` hands out the key's internal point; the accessor rule ran under C18 / C10 only | `c18KeyMethods` also under C13 and C14 |
 | C15-r61 | C15 | the blank import of `crypto/sha256` dropped: `crypto.SHA256.New()` panics in programs that do not link the implementation otherwise | `C15-1/hash-linked/*`: a package that calls `crypto.Hash.New` and names a hash identifier has the implementing package in its import closure |
 | C16-r62 | C16 | batches above 128 split with the remainder dropped: a length threshold that neither the instances 0..3 nor the loop argument see | `C16-2/shape`: no branch on the list length against a constant above 3 |
+| C05-r71, C05-r72 | C05 | a fast path of the routine that consumes the variable-time generator multiply drops the product; `PublicKey.Point()` hands out the stored point, which the Schnorr conversion then negates - both break clauses C05 states ("the variable-time generator multiply used by verification", "every private scalar d is mapped to the public point d*G") that only C16 / C10 decided | C05 also runs `C16-1` (the double multiplication, the only consumer of `scalarBaseMultVartime`) and the accessor rule `C10-4` |
+| C15-r72 | C15 | an up-front length check in `SetUniformBytes` with `>=` for `>`: 64-byte uniform strings panic; the rule compared values on returning paths only | `C15-3/SetUniformBytes/lengths`: for every length 32..64 (what `SetWideBytes` reduces, C01) the call returns and no panic is reachable |
+| C20-r72 | C20 | default entropy taken from a package-level `bufio.Reader`: the write to shared state happens inside `io.ReadFull`, whose reader argument was summarised as read-only | a reader's state is memory: `io.ReadFull` writes its reader (user-supplied readers stay the caller's responsibility in rule 2; a package-level one is shared state) |
 | C19-r22 | C19 (after the relevance filter was added) | reachability was computed in the amd64 configuration only; the portable lookup is the only caller that passes non-0/1 values to `Uint64Equal` | relevance is the union over every loaded build configuration |
 ''')
 s = open('/verif/DESIGN.md').read()
